@@ -376,7 +376,9 @@ class CliExitStream(Stream):
 
     def generate(self, rng):
         e = rng.choice(EXITS)
-        return {"exit": e, "user_wheeldir": True if e == "setup-requirements-unavailable" else rng.random() < 0.5}
+        # the wheel directory: a temporary one, one named on the command line, or one named by an option line of the
+        # requirements file (a directory the user supplied, whichever way it was named)
+        return {"exit": e, "user_wheeldir": True if e == "setup-requirements-unavailable" else rng.choice([False, True, True, "in-file"])}
 
     def impl(self, case):
         from rv.core import digest, REPO
@@ -416,7 +418,13 @@ class CliExitStream(Stream):
             os.makedirs(userdir)
             with open(os.path.join(userdir, "keep.txt"), "w") as f:
                 f.write("user data")
-            args += ["--wheel-dir", userdir]
+            if case["user_wheeldir"] == "in-file":
+                with open(os.path.join(d, "in.txt")) as f:
+                    body = f.read()
+                with open(os.path.join(d, "in.txt"), "w") as f:
+                    f.write("--wheel-dir %s\n%s" % (userdir, body))
+            else:
+                args += ["--wheel-dir", userdir]
         env = dict(os.environ, TMPDIR=os.path.join(d, "tmp"), PYTHONPATH=REPO, PYTHONWARNINGS="ignore")
         p = subprocess.run([sys.executable, "-m", "req_compile"] + args, cwd=d, env=env, stdout=subprocess.PIPE, stderr=subprocess.PIPE,
                            text=True, timeout=120)
@@ -428,7 +436,8 @@ class CliExitStream(Stream):
         return out
 
     def flags(self, case, r):
-        return ["exit:" + case["exit"], "user-wheeldir" if case["user_wheeldir"] else "temp-wheeldir"]
+        return ["exit:" + case["exit"], ("user-wheeldir-named-in-the-requirements-file" if case["user_wheeldir"] == "in-file" else "user-wheeldir")
+                if case["user_wheeldir"] else "temp-wheeldir"]
 
     def oracle(self, case, r):
         fails = []
